@@ -283,7 +283,8 @@ def main(run):
                 "integer-grid populations (2..5 objectives, +-weights, duplicates, collinear, single-point, layered fronts, k in 1..n) "
                 "replayed exactly over Q, and random float populations replayed bit for bit; every _randomizedSelect call with its pivot draws. "
                 "NSGA-III: the same population styles x both sorters x generated reference points (p 1..8, optional scaling, two layers), "
-                "memory variant threaded over 2..4 calls; niching replayed with the recorded shuffles; association checked in binary64 "
+                "memory variant threaded over 2..4 calls (best/worst/extreme points); 15% of the populations mix objectives of magnitude 1 and 1e6; "
+                "niching replayed with the recorded shuffles; association checked in binary64 "
                 "within tolerance and exactly over Q on a robust subset. Reference points: every (M,p) in 2..6 x 1..8, scalings. "
                 "A case is distinct by its full input; non-trivial = more than one individual or a non-default parameter.")
     run.trusted += ["Coq 8.16.1 kernel and vm_compute",
@@ -561,6 +562,11 @@ def main(run):
         for call in range(ncalls):
             n = rng.choice([1, 2, 3, 4, 5, 6, 8, 10, 12, 16]) if rng.random() < 0.8 else rng.randint(1, 24)
             style, vals = gen_values(rng, n, M)
+            if rng.random() < 0.15:
+                # objectives of very different magnitude (still exact integers): the ASF weights matter
+                big = [rng.random() < 0.5 for _ in range(M)]
+                vals = [[x * 10 ** 6 if bflag else x for x, bflag in zip(v, big)] for v in vals]
+                style += "+mixed-magnitude"
             k = rng.randint(1, n)
             pop = pf.make(w, vals)
             case = {"kind": "nsga3", "weights": w, "values": vals, "k": k, "nd": nd, "refs": rinfo, "seed": seed,
@@ -602,6 +608,7 @@ def main(run):
                 mem_calls.append([[int(x) for x in row] for row in fits])
                 mem_obs.append(([float(x) for x in selector.best_point.reshape(-1)],
                                 [float(x) for x in selector.worst_point.reshape(-1)],
+                                [] if selector.extreme_points is None else
                                 [[int(x) for x in row] for row in selector.extreme_points]))
         if selector is not None:
             case = {"kind": "nsga3-memory", "calls": mem_calls, "observed": mem_obs}
